@@ -3,7 +3,7 @@
 // Contracts for package encrypter, checked by /verif/govc. Comment-only; compiled only under the build tag "verif".
 package encrypter
 
-//@ property C28
+//@ property C28 C19
 
 //@ func (*GCMEncrypter).Encrypt(e, data) (out, err)
 //@   requires e != nil && e.cipherMode != nil
